@@ -212,6 +212,15 @@ class Accessor:
         """
         raise NotImplementedError
 
+    def close(self):
+        """Flush any pending writes.
+
+        Accessors that buffer writes (such as the sharded file accessor) must
+        override this method. It must be called once all chunks have been
+        stored, so that errors are reported to the caller.
+        """
+        pass
+
 
 class DataAccessError(Exception):
     """Exception indicating an error with access to a data resource."""
